@@ -38,7 +38,7 @@ FullTy   == {"withNewMessage", "goWrapError", "uWrapFull"}
 \* Leaves (s is the whole text).
 LeafTy   == {"leafError", "goErr", "ctxDeadline", "errno", "opaqueErrno", "pkgFundamental",
              "unimplementedError", "barrierErr", "uPtrLeaf", "uValLeaf", "uValPtrLeaf", "uRegLeaf",
-             "uProtoLeaf", "uIsLeaf", "uIsIdLeaf", "uSafeMsgLeaf", "uSafeDetLeaf", "uMaybe", "grpcStatus",
+             "uProtoLeaf", "uIsLeaf", "uIsIdLeaf", "uSafeMsgLeaf", "uSafeDetLeaf", "uKeyLeaf", "uMaybe", "grpcStatus",
              "gogoStatus", "runtimeErr", "opaqueLeaf", "decoded"}
 \* Multi-cause nodes: text = branch texts joined by NL ...
 JoinTy   == {"joinError", "goJoin"}
